@@ -91,7 +91,7 @@ func checkWildFacts(c WildCase) (*Violation, wildFacts) {
 	if derr != nil {
 		return nil, f
 	}
-	f.open = maxMembers(doc) >= 2
+	f.open = maxMembers(doc) >= 2 && !membersInKeyOrder()
 	got := RunQuery(context.Background(), p, doc)
 	if got.Panic != "" {
 		return violf("%q on %s panicked: %s", text, c.Doc, got.Panic), f
